@@ -66,14 +66,28 @@ class HostileWorld(W.FaultyWorld):
             m = wiregen.mutations(rng, answer, 8) + wiregen.rdlength_games(rng, answer)
             out.append(rng.choice(m) if m else answer)
         elif k < 0.8 and pq:
-            # many MX/SRV records with odd preferences, names of maximum length
+            # many MX/SRV records: complete preference tables (10, 20, … exactly n records), odd preferences, targets that are compression
+            # pointers to one long name (a small datagram that decodes to a lot), well-formed up to the last byte
             name, qt = pq["qd"][0][0], rng.choice([15, 33])
-            rds = []
-            for i in range(rng.choice([1, 249, 250, 251, 300])):
-                pref = rng.choice([10 * (i + 1), 10 * (i + 1) + 1, 0, 2490, 2500, 65530])
-                host = (b"h" + bytes(rng.choice(b"abcdefghijklmnopqrstuvwxyz012345") for _ in range(rng.choice([1, 56, 56]))) + b".") * rng.choice([1, 4]) + b"xy"
-                rds.append(struct.pack(">H", pref) + (struct.pack(">HH", 10, 5060) if qt == 33 else b"") + P.wire_name(host[:250]))
-            out.append(P.answer(pq["id"], name, qt, rds)[:65000])
+            n = rng.choice([1, 20, 30, 60, 249, 250, 251, 300])
+            exact = rng.random() < 0.6
+            longhost = b".".join([b"h" + bytes(rng.choice(b"abcdefghijklmnopqrstuvwxyz012345") for _ in range(56))] + [bytes(rng.choice(b"abcdefghijklmnopqrstuvwxyz012345") for _ in range(57)) for _ in range(3)]) + b".xy"
+            msg = P.header(pq["id"], 0x8400, 1, n) + P.question(name, qt)
+            first_target = None
+            for i in range(n):
+                pref = 10 * (i + 1) if exact else rng.choice([10 * (i + 1), 10 * (i + 1) + 1, 0, 2490, 2500, 65530])
+                pre = struct.pack(">H", pref) + (struct.pack(">HH", 10, 5060) if qt == 33 else b"")
+                if first_target is None or rng.random() < 0.1:
+                    rd = pre + P.wire_name(longhost if rng.random() < 0.7 else b"hab.xy")
+                    target_off = len(msg) + 2 + 10 + len(pre)
+                    if first_target is None:
+                        first_target = target_off
+                else:
+                    rd = pre + bytes([0xc0 | (first_target >> 8), first_target & 0xff])
+                msg += P.rr(b"\xc0\x0c", qt, rd)
+                if len(msg) > 60000:
+                    break
+            out.append(msg)
         elif k < 0.88 and pq:
             # TXT with bad chunking
             name = pq["qd"][0][0]
